@@ -50,6 +50,8 @@ type World struct {
 	errorIface  *types.Interface
 	varsMemo    map[*Term][]*Term
 	feasQuery   bool
+	fpMemo      map[*Term]uint32
+	envPool     []map[ssa.Value]value
 }
 
 // InputRec describes one symbolic input created by a vf* call.
@@ -57,6 +59,7 @@ type InputRec struct {
 	Name  string `json:"name"`
 	Label string `json:"label"`
 	W     uint8  `json:"w"`
+	Env   bool   `json:"env,omitempty"` // created by the engine's environment model (time.Now), not by a vf* call: no native vector slot
 }
 
 type Observation struct {
@@ -91,17 +94,25 @@ type Run struct {
 	lastPanic string
 	pinned   map[*Term]uint64 // sub-terms the path condition fixes to a constant (pinned.go)
 	detMemo  map[*Term]uint64
+	schedDependent bool // a scheduling/select choice with more than one option was made
+	dbgLog, parentLog []string
 }
 
 // dec is one recorded decision: the side taken, and for concretisations the value tested.
 type dec struct {
-	b bool
-	v uint64
+	b  bool
+	v  uint64
+	fp uint32 // structural fingerprint of the condition decided here (replay determinism self-check)
+	// implied: the other side was infeasible, i.e. the path condition already implies the side taken. Such a
+	// condition is remembered in pcSet (so that it is not decided again) but not appended to pc: it adds nothing
+	// logically and would only couple otherwise independent variables in later constraint slices.
+	implied bool
 }
 
 type workItem struct {
 	trail   []dec
 	witness Model
+	dbgLog  []string // debug only: the parent's event log up to the fork
 }
 
 func (w *World) globalAddr(g *ssa.Global) *value {
@@ -214,6 +225,34 @@ func (w *World) termVars(t *Term) []*Term {
 	return vs
 }
 
+// fingerprint is a structural hash of t that does not depend on term IDs (which differ between workers).
+func (w *World) fingerprint(t *Term) uint32 {
+	if fp, ok := w.fpMemo[t]; ok {
+		return fp
+	}
+	h := uint32(2166136261)
+	mix := func(x uint32) { h = (h ^ x) * 16777619 }
+	mix(uint32(t.Op))
+	mix(uint32(t.W))
+	mix(uint32(t.K))
+	mix(uint32(t.K >> 32))
+	for i := 0; i < len(t.Name); i++ {
+		mix(uint32(t.Name[i]))
+	}
+	for _, c := range []*Term{t.A, t.B, t.C} {
+		if c != nil {
+			mix(w.fingerprint(c))
+		} else {
+			mix(0x9e3779b9)
+		}
+	}
+	if len(w.fpMemo) > 3_000_000 {
+		w.fpMemo = map[*Term]uint32{}
+	}
+	w.fpMemo[t] = h
+	return h
+}
+
 // query decides pc ∧ extra using only the part of the path condition that shares variables
 // (transitively) with extra; the returned model is the current witness updated on those variables.
 func (w *World) query(extra *Term, wantModel bool) (SatResult, Model) {
@@ -318,12 +357,30 @@ func (w *World) branchV(c *Term, val uint64) bool {
 	}
 	if r.cursor < len(r.trail) {
 		d := r.trail[r.cursor]
+		if fp := w.fingerprint(c); d.fp != fp {
+			msg := fmt.Sprintf("replay divergence at decision %d: recorded fingerprint %08x, now %08x for %s (engine non-determinism)", r.cursor, d.fp, fp, TermString(c, 4))
+			if gDebug {
+				msg += "\nPARENT LOG:\n"
+				for _, l := range r.parentLog {
+					msg += "  " + l + "\n"
+				}
+				msg += "THIS RUN:\n"
+				for _, l := range r.dbgLog {
+					msg += "  " + l + "\n"
+				}
+			}
+			panic(engineError{msg})
+		}
 		r.cursor++
 		r.taken = append(r.taken, d)
-		if d.b {
-			w.addPC(c)
+		dc := c
+		if !d.b {
+			dc = nc
+		}
+		if d.implied {
+			w.notePC(dc)
 		} else {
-			w.addPC(nc)
+			w.addPC(dc)
 		}
 		return d.b
 	}
@@ -339,23 +396,45 @@ func (w *World) branchV(c *Term, val uint64) bool {
 	w.feasQuery = true
 	res, model := w.query(other, true)
 	w.feasQuery = false
+	implied := false
 	switch res {
+	case ResUnsat:
+		implied = true
 	case ResSat:
 		tr := make([]dec, len(r.taken)+1)
 		copy(tr, r.taken)
-		tr[len(r.taken)] = dec{!side, val}
-		r.newWork = append(r.newWork, workItem{trail: tr, witness: model})
+		tr[len(r.taken)] = dec{b: !side, v: val, fp: w.fingerprint(c)}
+		wi := workItem{trail: tr, witness: model}
+		if gDebug {
+			wi.dbgLog = append([]string(nil), r.dbgLog...)
+		}
+		r.newWork = append(r.newWork, wi)
 	case ResUnknown:
 		r.inconclusive = append(r.inconclusive, "branch feasibility unknown: "+TermString(other, 4))
 	}
-	r.taken = append(r.taken, dec{side, val})
+	r.taken = append(r.taken, dec{b: side, v: val, fp: w.fingerprint(c), implied: implied})
 	r.cursor++
-	if side {
-		w.addPC(c)
+	sc := c
+	if !side {
+		sc = nc
+	}
+	if implied {
+		w.notePC(sc)
 	} else {
-		w.addPC(nc)
+		w.addPC(sc)
 	}
 	return side
+}
+
+// notePC records that the path condition implies t without adding t to the conjunction.
+func (w *World) notePC(t *Term) {
+	r := w.run
+	r.pcSet[t] = true
+	r.pin(t)
+	if t.Op == OpBAnd {
+		r.pcSet[t.A] = true
+		r.pcSet[t.B] = true
+	}
 }
 
 // concretize forks over the feasible values of t (at most limit, else BOUND-HIT).
@@ -436,6 +515,7 @@ type Violation struct {
 	Model   Model
 	Inputs  []InputRec
 	Trail   []dec
+	Sched   bool // depends on scheduler/select/map-order choices: replayed by engine re-execution, not natively
 }
 
 type violationAbort struct{ v *Violation }
